@@ -75,3 +75,54 @@ func (eng *Engine) FuncSize(name string) int {
 	}
 	return 0
 }
+
+// ScanNondeterminism inspects the SSA of the named functions (names as in
+// Stats.Funcs) for constructs whose result may depend on scheduling, iteration
+// order, time or randomness. Only functions of module modPrefix are inspected.
+func (eng *Engine) ScanNondeterminism(names map[string]int64, modPrefix string) (scanned int, found []string) {
+	byName := map[string]*ssa.Function{}
+	for fn := range ssautil.AllFunctions(eng.prog) {
+		byName[fn.String()] = fn
+	}
+	for name := range names {
+		fn := byName[name]
+		if fn == nil || fn.Pkg == nil || !strings.HasPrefix(fn.Pkg.Pkg.Path(), modPrefix) {
+			continue
+		}
+		scanned++
+		for _, b := range fn.Blocks {
+			for _, in := range b.Instrs {
+				what := ""
+				switch in := in.(type) {
+				case *ssa.Go:
+					what = "go statement"
+				case *ssa.Select:
+					what = "select"
+				case *ssa.Send:
+					what = "channel send"
+				case *ssa.MakeChan:
+					what = "make(chan)"
+				case *ssa.Range:
+					if _, ok := in.X.Type().Underlying().(*types.Map); ok {
+						what = "range over a map"
+					}
+				case *ssa.UnOp:
+					if in.Op.String() == "<-" {
+						what = "channel receive"
+					}
+				case ssa.CallInstruction:
+					if c := in.Common().StaticCallee(); c != nil && c.Pkg != nil {
+						switch p := c.Pkg.Pkg.Path(); p {
+						case "time", "math/rand", "crypto/rand", "os", "sync", "sync/atomic", "runtime", "unsafe", "reflect":
+							what = "call of " + p + "." + c.Name()
+						}
+					}
+				}
+				if what != "" {
+					found = append(found, name+": "+what)
+				}
+			}
+		}
+	}
+	return
+}
